@@ -168,12 +168,34 @@ def resources(i):
             'string_ids': [0x5000 * (i + 1) + j for j in range(3)], 'prefix': b'P%d_' % i}
 
 
-def expand_program(i, ops):
+def expand_program(i, ops, partition=False):
     tid = PROGRAM_TIDS[i]
     res = resources(i)
     out = []
     for op in ops:
         out += expand_op(tid, list(op), res)
+    return partition_fix(tid, res, out) if partition else out
+
+
+TABLE_WRITERS = {'PERF_THD_Data': (1, 0), 'TRACE_DATA_NEWTHREAD': (0, 1), 'TRACE_DATA_EXEC': (None, 0),
+                 'TRACE_DATA_THREAD_TERMINATE': (0, None)}
+
+
+def partition_fix(tid, res, evs):
+    """records that write (or read) the shared thread/process tables under a key taken from their arguments get
+    keys owned by this program, so that programs never touch each other's entries (C05's precondition)"""
+    out = []
+    for e in evs:
+        if e[1] in TABLE_WRITERS and len(e[3]) == 32:
+            tslot, pslot = TABLE_WRITERS[e[1]]
+            a = [int.from_bytes(e[3][8 * k:8 * k + 8], 'little') for k in range(4)]
+            if tslot is not None:
+                own = [tid] + res['child_tids']
+                a[tslot] = own[a[tslot] % len(own)]
+            if pslot is not None:
+                a[pslot] = res['pids'][a[pslot] % len(res['pids'])]
+            e = [e[0], e[1], e[2], b''.join(x.to_bytes(8, 'little') for x in a)]
+        out.append(e)
     return out
 
 
